@@ -139,6 +139,12 @@ func genC14(t *rapid.T) c14Case {
 	if rapid.IntRange(0, 11).Draw(t, "padded") == 0 {
 		c.Opts.PadBytes = rapid.SampledFrom([]int{70_000, 600_000, 1_200_000}).Draw(t, "padBytes")
 	}
+	// source maps without a BaseUnitSourceInformation node (what older producers emit): which uri a location then
+	// carries is not specified, but the node's entry is still there and so are its four numbers
+	if rapid.IntRange(0, 5).Draw(t, "noSourceInformation") == 0 {
+		c.Maps.NoBase = true
+		c.Maps.Files = nil
+	}
 	c.Route = rapid.SampledFrom([]int{0, 0, 1}).Draw(t, "route") // the two reports are compared whole: only the routes with a fixed clock
 	return c
 }
@@ -206,7 +212,7 @@ func checkLocations(c *c14Case, ids map[string]int, obj map[string]any, where st
 			if got.r != wantR {
 				return fmt.Sprintf("%s %s about node %s: location range %v, recorded %v", where, what, focus, got.r, wantR)
 			}
-			if want := c.Maps.URI(idx); got.uri != want {
+			if want := c.Maps.URI(idx); got.uri != want && !c.Maps.NoBase {
 				return fmt.Sprintf("%s %s about node %s: uri %q, node was declared in %q", where, what, focus, got.uri, want)
 			}
 			stats["located"]++
